@@ -92,6 +92,14 @@ def seasoned_models():
                                          'docs': [M([(S('a-b'), I('1'))]), M([(S('a-b'), I('1')), (S('c-d'), S('v'))]),
                                                   M([(S('a-b'), I('1')), (S('a_b'), I('2'))])]}],
                      'root': ('cls', 'K')}
+    # dashes_to_unders together with _yatiml_extra: both spellings of an unknown key become the same key
+    yield 'season', {'classes': BASE + [{'name': 'K', 'params': [('a_b', 'int'), ('c_d', 'str', 'x')], 'extra': True,
+                                         'hooks': {'savorize': [('dashes_to_unders',)]},
+                                         'docs': [M([(S('a-b'), I('1')), (S('x-y'), S('dashed')), (S('x_y'), S('unders'))]),
+                                                  M([(S('a-b'), I('1')), (S('x_y'), S('unders')), (S('x-y'), S('dashed'))]),
+                                                  M([(S('a_b'), I('1')), (S('x-y'), I('2'))]),
+                                                  M([(S('a-b'), I('1')), (S('c-d'), S('v')), (S('c_d'), S('w'))])]}],
+                     'root': ('cls', 'K')}
     yield 'season', {'classes': BASE + [{'name': 'K', 'params': [('new', 'int')],
                                          'hooks': {'savorize': [('rename', 'old', 'new')]},
                                          'docs': [M([(S('old'), I('1'))]), M([(S('old'), I('1')), (S('new'), I('2'))])]}],
@@ -112,6 +120,33 @@ def seasoned_models():
                                          'hooks': {'savorize': [('scalar_to_attr', 'v')]},
                                          'docs': [I('5'), S('nope')]}],
                      'root': ('list', ('cls', 'K'))}
+
+
+def element_order_models():
+    """a collection whose items are recognised one by one: an ambiguous item and an unrecognisable item in either
+    order; the collection is a Union member / an attribute of a class that competes with another class"""
+    fork = [{'name': 'F0', 'params': [('x', 'int')]}, {'name': 'F1', 'bases': ['F0'], 'params': [('x', 'int')]},
+            {'name': 'F2', 'bases': ['F0'], 'params': [('x', 'int')]}]
+    S1 = lambda v: ('s', 'str', v)     # noqa
+    I1 = lambda v: ('s', 'int', v)     # noqa
+    amb = ('m', 'map', [(S1('x'), I1('1'))])
+    for coll in ('list', 'dict'):
+        t_amb = ('list', ('cls', 'F0')) if coll == 'list' else ('dict', 'str', ('cls', 'F0'))
+        t_any = ('list', 'any') if coll == 'list' else ('dict', 'str', 'any')
+        t_u = ('list', ('union', ['int', 'str'])) if coll == 'list' else ('dict', 'str', ('union', ['int', 'str']))
+
+        def mk(items):
+            if coll == 'list':
+                return ('q', 'seq', list(items))
+            return ('m', 'map', [(S1('k%d' % i), it) for i, it in enumerate(items)])
+        extra = [mk([amb, I1('5')]), mk([I1('5'), amb]), mk([amb, amb]), mk([I1('5'), I1('6')]), mk([amb, I1('5'), amb])]
+        ka = {'name': 'Ka', 'params': [('l', t_amb)], 'docs': [('m', 'map', [(S1('l'), e)]) for e in extra]}
+        kb = {'name': 'Kb', 'params': [('l', t_any)]}
+        yield 'element-order', {'classes': BASE + fork + [ka, kb], 'root': ('union', [('cls', 'Ka'), ('cls', 'Kb')])}
+        yield 'element-order', {'classes': BASE + fork + [dict(ka, name='K')], 'root': ('cls', 'K')}
+        # the docs ride on a class that the root does not use (only valid() of the root type is taken): wrap in a holder
+        hold = {'name': 'Hd', 'params': [('u', ('union', [t_amb, t_u]))], 'docs': [('m', 'map', [(S1('u'), e)]) for e in extra]}
+        yield 'element-order', {'classes': BASE + fork + [hold], 'root': ('cls', 'Hd')}
 
 
 def shorthand_models():
@@ -183,7 +218,7 @@ def all_load_models(tier):
     """the C02 catalogue: auto-recognised models"""
     out = []
     for gen in (root_models(), one_param_models(), two_param_models(full=(tier == 'thorough')),
-                nested_models(), seasoned_models(), shorthand_models()):
+                nested_models(), seasoned_models(), shorthand_models(), element_order_models()):
         for fam, spec in gen:
             if spec is not None:
                 out.append((fam, spec))
